@@ -618,9 +618,10 @@ def _raw_derives(body, x, call_bbs, seen, depth=0):
     if pl is None or depth > 30:
         return False
     l = pl["l"]
-    if l in seen:
+    key = (l, pl["p"][0]["f"] if pl["p"] and isinstance(pl["p"][0], dict) and "f" in pl["p"][0] else None)
+    if key in seen:
         return False
-    seen.add(l)
+    seen.add(key)
     for d in body.defs().get(l, []):
         if d[0] == "call":
             if d[1] in call_bbs:
@@ -637,12 +638,16 @@ def _raw_derives(body, x, call_bbs, seen, depth=0):
                 ops = [rv["pl"]]
             elif rv["r"] == "agg":
                 ops = rv["fields"]
+                # `(t.0)` of a tuple / struct literal: only that field
+                fp = [p for p in pl["p"] if isinstance(p, dict) and "f" in p]
+                if pl["p"] and isinstance(pl["p"][0], dict) and "f" in pl["p"][0] and pl["p"][0]["f"] < len(ops) and rv.get("kind") in ("tuple", "adt") and "variant_idx" not in rv or (pl["p"] and isinstance(pl["p"][0], dict) and "f" in pl["p"][0] and rv.get("kind") == "tuple" and pl["p"][0]["f"] < len(ops)):
+                    ops = [ops[pl["p"][0]["f"]]]
             elif rv["r"] == "bin":
                 ops = [rv["a"], rv["b"]]
             elif rv["r"] == "un":
                 ops = [rv["a"]]
             for o in ops:
-                if _raw_derives(body, o, call_bbs, seen, depth + 1):
+                if _raw_derives(body, o, call_bbs, set(seen) if len(ops) == 1 and rv["r"] == "agg" else seen, depth + 1):
                     return True
     return False
 
